@@ -122,6 +122,10 @@ class Tr:
             return f"(inject_Z {a})", b, "Q"
         if at == "Q" and bt == "Z":
             return a, f"(inject_Z {b})", "Q"
+        if at == "Q" and bt == "F":
+            return f"(FQ {a})", b, "F"
+        if at == "F" and bt == "Q":
+            return a, f"(FQ {b})", "F"
         if at == "none" and isinstance(bt, tuple) and bt[0] == "opt":
             return a, b, bt
         if bt == "none" and isinstance(at, tuple) and at[0] == "opt":
